@@ -199,11 +199,19 @@ def write_jsonl(path, items):
 
 # ------------------------------------------------------------ verdicts ----
 
-def known_findings():
-    path = os.path.join(VERIF, "known_findings.json")
-    if not os.path.exists(path):
-        return []
-    return json.load(open(path)).get("findings", [])
+def known_findings(prop=None):
+    """Entries of /verif/known_findings/*.json (committed; never written at run
+    time).  Each file: {"findings": [{"property":..,"id":..,"what":..,"pattern":..}, ...],
+    "fixed": [...]}.  `fixed` entries suppress nothing."""
+    d = os.path.join(VERIF, "known_findings")
+    out = []
+    if os.path.isdir(d):
+        for f in sorted(os.listdir(d)):
+            if f.endswith(".json"):
+                for e in json.load(open(os.path.join(d, f))).get("findings", []):
+                    if prop is None or e.get("property") == prop:
+                        out.append(e)
+    return out
 
 
 class Result:
